@@ -17,7 +17,8 @@
    variant (a failed refresh overwrites the instance) used to show the check is not vacuous. *)
 EXTENDS Integers, FiniteSets, Sequences, TLC
 
-CONSTANTS Srcs, Limit, Refresh, TTL, NegTTL, Idle, MaxTime, MaxSubmits, ForgetOnError, RecheckUnderLock
+CONSTANTS Srcs, Limit, Refresh, TTL, NegTTL, Idle, MaxTime, MaxSubmits, ForgetOnError, RecheckUnderLock,
+          CoalesceAnswers   \* deviation (round-6 seeded change C12 m2): an answer still waiting for the consumer is overwritten by a newer one for the same source
 
 VARIABLES now, cache, batch, infos, toReturn, toLookup, gPos, gNeg, submits, pend,
           par, entry, owed, unqueried, requery, bad
@@ -55,7 +56,9 @@ HandleInfo ==
      IN /\ cache' = [x \in DOMAIN cache \cup {s} |-> IF x = s THEN new ELSE cache[x]]
         /\ gPos' = gPos + (IF cur.kind = "none" /\ i.res = "pos" THEN 1 ELSE IF cur.kind = "neg" /\ i.res = "pos" THEN 1 ELSE 0)
         /\ gNeg' = gNeg + (IF cur.kind = "none" /\ i.res = "neg" THEN 1 ELSE IF cur.kind = "neg" /\ i.res = "pos" THEN -1 ELSE 0)
-        /\ toReturn' = Append(toReturn, i)
+        /\ toReturn' = IF CoalesceAnswers /\ \E k \in 1..Len(toReturn) : toReturn[k].src = s
+                       THEN [k \in 1..Len(toReturn) |-> IF toReturn[k].src = s THEN i ELSE toReturn[k]]
+                       ELSE Append(toReturn, i)
   /\ infos' = Tail(infos)
   /\ UNCHANGED <<now, batch, toLookup, submits, pend>> /\ MonUnch
 Deliver == /\ toReturn # <<>>
